@@ -53,6 +53,11 @@ CLAIMED = {
    text="Structural necessary conditions decided at every site: reflective lookup/call only inside the CallMethod gate; MethodByName only on the allow-list's accepted edge and with its canonical spelling; canonicalMethodName says yes only for keys of allowedMethods; reflect.Call only after an arity comparison on every path and with arguments that passed AssignableTo (typed zero for null); the allow-list has no case-duplicates, contains every provider-table entry and is never written after init; provider packages contain no unguarded interface ==/!= and no unchecked assertion on values from interface parameters; direct (non-reflective) provider calls use allow-listed names. Evidence lists each provider type's reachable method surface.",
    note="Does not cover what an allow-listed method does with well-typed arguments. Trusted: go/types method sets, go/ssa.",
    ref="DESIGN.md §3 C12"),
+ "C04": dict(
+   technique="static analysis: must-pass-through / ordering path queries (depth budget pairing, loop-counter advance on every back edge, step-bound typestate on *vm.VM), goroutine recover rule, panic-site audit (interface equality, integer division, unchecked assertions), error-text taint to response writers, serialise-before-commit ordering",
+   text="Layered structural necessary conditions decided at every site: the evaluation-depth test dominates dispatch and every exit after the increment decrements; the while-loop counter advances on every way around the loop and its limit test dominates the body; every VM has a positive step bound and runLoop enforces it; both HTTP dispatch entries recover to a 500; every goroutine of interpreter/VM that can run user code recovers; no unguarded interface ==, unchecked assertion or unguarded integer division in the engines; no Go error/panic text reaches a response whose status is not a constant 4xx, 5xx interpreter responses are constant, execution errors end in a status writer, and route results are marshalled before the status is committed.",
+   note="Does not cover index/nil panics in general, stack exhaustion in libraries, wall-clock bounds, limit values. Trusted: go/types, go/ssa.",
+   ref="DESIGN.md §3 C04"),
 }
 
 NA_REASONS = {}
